@@ -582,8 +582,9 @@ def c14_handle_lease(inputs, doc):
 
 # --------------------------------------------------------------------------- C05
 
-def _wire_order(frames, fragment_size=64):
-    """Drive the REAL sender step (_get_next_frame_to_send) over a queue of real frames; returns the wire log."""
+def _wire_order(frames, fragment_size=64, late=None):
+    """Drive the REAL sender step (_get_next_frame_to_send) over a queue of real frames; returns the wire log.
+    late = (k, frame): `frame` is queued by another coroutine while the sender is inside its k-th write."""
     import asyncio
     from rsocket.rsocket_server import RSocketServer
     from rsocket.queue_peekable import QueuePeekable
@@ -598,11 +599,13 @@ def _wire_order(frames, fragment_size=64):
         for f in frames:
             s._send_queue.put_nowait(f)
         wire = []
-        for _ in range(200):
+        for n in range(200):
             if s._send_queue.empty():
                 break
             async with s._get_next_frame_to_send(T()) as fr:
                 wire.append(fr)
+                if late is not None and late[0] == n:
+                    s._send_queue.put_nowait(late[1])       # queued during the (suspended) transport write
         return wire
     return asyncio.run(run())
 
@@ -625,19 +628,26 @@ def c05_emit(inputs, doc):
             f.stream_id = sid
             f.error_code = 0x201
             f.data = b'e'
-        f._tag = (kind, sid, tag)
+        pass
         return f
     kinds = ['big', 'small', 'cancel', 'error']
+    cases = []
     for n in (2, 3):
         for combo in itertools.product([(k, s) for k in kinds for s in (2, 4)], repeat=n):
-            frames = []
-            for i, (k, s) in enumerate(combo):
-                f = mk(k, s, i + 1)
-                try:
-                    frames.append(f)
-                except Exception:
-                    pass
-            wire = _wire_order(frames)
+            cases.append((combo, None))
+    # a frame queued by another coroutine while the sender is suspended in its k-th transport write
+    for n in (1, 2):
+        for combo in itertools.product([(k, s) for k in kinds for s in (2, 4)], repeat=n):
+            for lk in kinds:
+                for when in (0, 1):
+                    cases.append((combo + ((lk, 2),), when))
+    for combo, when in cases:
+        if True:
+            frames = [mk(k, s, i + 1) for i, (k, s) in enumerate(combo)]
+            if when is None:
+                wire = _wire_order(frames)
+            else:
+                wire = _wire_order(frames[:-1], late=(when, frames[-1]))
             # per stream: sources must appear in queue order and the fragments of one source contiguously
             for sid in (2, 4):
                 srcs = [i for i, (k, s) in enumerate(combo) if s == sid]
@@ -661,6 +671,7 @@ def c05_emit(inputs, doc):
                         seen.append(ident)
                 if seen != [i for i in srcs if i in seen] or len(seen) != len(set(seen)):
                     return dict(queue=[('%s(stream %d)' % c) for c in combo],
+                                last_frame_queued_during_write_number=when,
                                 wire=['%s(stream %d%s)' % (type(f).__name__, f.stream_id, ', follows' if getattr(f, 'flags_follows', False) else '')
                                       for f in wire], stream=sid, source_order_on_wire=seen)
     return None
